@@ -809,6 +809,11 @@ func (ctx *Context) evaluate() {
 				return
 			}
 
+		case typeStoreNameLocal:
+			v := e.stack[e.top-1].Clone()
+			name := code.Value.(string)
+			ctx.StoreNameLocal(name, v)
+
 		case typeJe, typeJeDup:
 			v := stackPop()
 			if v.AsBool() {
